@@ -384,26 +384,66 @@ def rule_c(ctx, out):
             out.ok()
         else:
             out.bad(f"AsmBytecode.{m}:flag-changes-other-items", f"AsmBytecode.{m} of `PUSH 1` / `ADD` depends on the PUSH0 flag", where(cls.methods[m]))
-    # is_push0 itself: flag and PUSH and "0"
+    # is_push0 itself, by evaluation: true exactly for (flag on, "PUSH", "0")
     ip = ctx.func("sfs_generator.asm_bytecode.is_push0")
-    rets = [r for r in own_nodes(ip.node) if isinstance(r, ast.Return)]
-    conj = rets[0].value.values if rets and isinstance(rets[0].value, ast.BoolOp) and isinstance(rets[0].value.op, ast.And) else []
-    has_flag = any(_is_flag_expr(v) for v in conj)
-    has_name = any(isinstance(v, ast.Compare) and isinstance(v.ops[0], ast.Eq) and isinstance(v.comparators[0], ast.Constant) and v.comparators[0].value == "PUSH" for v in conj)
-    has_zero = any(isinstance(v, ast.Compare) and isinstance(v.ops[0], ast.Eq) and isinstance(v.comparators[0], ast.Constant) and v.comparators[0].value == "0" for v in conj)
-    if has_flag and has_name and has_zero and len(conj) == 3:
-        out.ok({"is_push0": norm(rets[0].value)})
+
+    def set_flag(flag):
+        for m in list(mi.env) + ["global_params.constants"]:
+            env = mi.module_env(m)
+            if m == "global_params.constants":
+                env["push0_enabled"] = flag
+    names, values = ("PUSH", "PUSH0", "ADD", "PUSH data", "PUSH [tag]"), ("0", "1", "00", None, 0)
+    wrong = []
+    for flag in (True, False):
+        set_flag(flag)
+        for d in names:
+            for v in values:
+                try:
+                    got = bool(mi.call(ip, d, v))
+                except Raised as e:
+                    got = f"raises {e.what}"
+                except Unsupported as e:
+                    raise AnalysisError(f"is_push0 cannot be evaluated abstractly: {e}")
+                if got != (flag and d == "PUSH" and v == "0"):
+                    wrong.append((flag, d, v, got))
+    if not wrong:
+        out.ok({"is_push0": f"{2 * len(names) * len(values)} cases: true exactly for flag on, 'PUSH', '0'"})
     else:
-        out.bad("is_push0:predicate-changed", f"is_push0 is not `flag and disasm == 'PUSH' and value == '0'`: {norm(rets[0].value) if rets else '?'}", where(ip))
-    # parser: same predicate
+        flag, d, v, got = wrong[0]
+        out.bad("is_push0:predicate-changed", f"is_push0({d!r}, {v!r}) with the flag {'on' if flag else 'off'} is {got}; a zero push is `flag and disasm == 'PUSH' "
+                f"and value == '0'` ({len(wrong)} cases differ)", where(ip))
+    # parser: the item built from an assembly record is PUSH0/None exactly under the same predicate, and the record's own name/value otherwise
     bb = ctx.func("sfs_generator.parser_asm.build_asm_bytecode")
-    tests = [n for n in own_nodes(bb.node) if isinstance(n, ast.If) and any(_is_flag_expr(x) for x in ast.walk(n.test))]
-    if len(tests) == 1 and isinstance(tests[0].test, ast.BoolOp) and isinstance(tests[0].test.op, ast.And) and len(tests[0].test.values) == 3 \
-            and any(isinstance(v, ast.Compare) and isinstance(v.comparators[0], ast.Constant) and v.comparators[0].value == "0" for v in tests[0].test.values) \
-            and any(isinstance(v, ast.Compare) and isinstance(v.comparators[0], ast.Constant) and v.comparators[0].value == "PUSH" for v in tests[0].test.values):
-        out.ok({"build_asm_bytecode": norm(tests[0].test)})
+    init_params = [p for p in cls.methods["__init__"].params if p != "self"]
+
+    def built(*a, **k):
+        d = dict(zip(init_params, a))
+        d.update(k)
+        return ("ITEM", d.get("disasm"), d.get("value"))
+    pmi = ModuleInterp(ctx, max_steps=100000, extern={"AsmBytecode": built})
+    wrong = []
+    for flag in (True, False):
+        pmi.module_env("global_params.constants")["push0_enabled"] = flag
+        for d in names:
+            for v in values[:4]:
+                rec = {"name": d, "begin": 1, "end": 2, "source": 3}
+                if v is not None:
+                    rec["value"] = v
+                try:
+                    got = pmi.call(bb, rec, {})
+                except Raised as e:
+                    got = ("raises", e.what)
+                except Unsupported as e:
+                    raise AnalysisError(f"build_asm_bytecode cannot be evaluated abstractly: {e}")
+                zero = flag and d == "PUSH" and v == "0"
+                if got != (("ITEM", "PUSH0", None) if zero else ("ITEM", d, v)):
+                    wrong.append((flag, d, v, got))
+    if not wrong:
+        out.ok({"build_asm_bytecode": f"{2 * len(names) * 4} records: PUSH0 item exactly for flag on, 'PUSH', '0'"})
     else:
-        out.bad("build_asm_bytecode:predicate-differs-from-is_push0", "the parser's PUSH0 test is not `flag and name == 'PUSH' and value == '0'`", where(bb))
+        flag, d, v, got = wrong[0]
+        out.bad("build_asm_bytecode:predicate-differs-from-is_push0", f"the parser builds {got!r} from the record {d} {v!r} with the flag {'on' if flag else 'off'}: "
+                f"a PUSH0 item is built exactly when `flag and name == 'PUSH' and value == '0'` ({len(wrong)} records differ)", where(bb))
     # specification record of a pushed constant: evaluated abstractly for a zero and a non-zero value with the flag on and off —
     # every spelling / price field follows the flag together
     gp = ctx.func("sfs_generator.gasol_optimization.generate_push_instruction")
